@@ -68,7 +68,7 @@ fn on_step(rec: &StepRec, t: &mut Tally) {
 }
 
 pub fn judge(_part: &str, case: &Case, tally: &mut Tally) -> Verdict {
-    let v = spec_judge(case, &SpecOpts { own: Class::Edit, scrollback: false }, tally, &mut on_step);
+    let v = spec_judge(case, &SpecOpts { own: Class::Edit, scrollback: true }, tally, &mut on_step);
     if v != Verdict::Pass {
         return v;
     }
@@ -118,7 +118,13 @@ pub fn run(env: &Env) -> PropRun {
             if i < b.total {
                 let d = radix(i, &b.dims)?;
                 let (row, col) = (d[0], d[1]);
-                let mut s = gen::fill_screen_mode(b.cols, b.rows, d[3]);
+                let mut s = String::new();
+                if d[3] == 0 {
+                    // scrollback whose newest row is soft-wrapped into the first screen row:
+                    // rows above the view are "every other row" too
+                    s.push_str(&"#".repeat(b.cols * (b.rows + 1)));
+                }
+                s.push_str(&gen::fill_screen_mode(b.cols, b.rows, d[3]));
                 s.push_str(PENS[d[2]]);
                 // modes first (?6h homes), then the cursor; with origin mode on and full
                 // margins CUP still reaches every row
